@@ -237,7 +237,8 @@ func c02SeqReplay(p *route.Parser, c c02Case) (bool, string) {
 // c02Sequences: what Match hands out is a function of the routes and the path, not of earlier requests:
 // every ordered pair of paths on every tree of one or two routes, compared with a fresh tree.
 func c02Sequences(r *core.Run, p *route.Parser) {
-	paths := pathsOver([]string{"a", "n", "e"}, 3, []string{"/a/a-a/n", "/a/a-/n", "/n/a/e/e"})
+	// (%2561 decodes once to %61: a value that a second decoding would change)
+	paths := pathsOver([]string{"a", "n", "e", "%2561"}, 3, []string{"/a/a-a/n", "/a/a-/n", "/n/a/e/e", "/a/%2561-%2561/n"})
 	r.Bounds["sequence_routes"] = c02SeqRoutes
 	r.Bounds["sequence_paths"] = len(paths)
 	n := len(c02SeqRoutes)
@@ -480,6 +481,14 @@ func c02Run(r *core.Run) {
 				bad, kind, nt, found := c02TreeEvalOn(m, tree, j.cr, raw)
 				if nt {
 					l.NonTrivial++
+				}
+				if bad == "" && found && strings.Contains(raw, "%") {
+					// the same request again, straight away: the values are decoded once each time
+					if b2, k2, _, _ := c02TreeEvalOn(m, tree, j.cr, raw); b2 != "" {
+						l.Class("mismatch")
+						l.Violate(k2+"/"+j.seg.class+"/same-request-again", b2+fmt.Sprintf(" [route %q, path %q requested twice in a row on one tree]", j.cr.Text, raw), c02Case{Routes: []string{j.cr.Text}, History: []string{raw}, Path: raw})
+						continue
+					}
 				}
 				if bad != "" {
 					l.Class("mismatch")
